@@ -83,7 +83,12 @@ fn corpus_case(seed: u64, i: u64) -> (ConvCase, Vec<usize>, String) {
         deliverable_at.push(off + head_len + if buffered { wire_body.len() } else { 0 });
         off += head_len + wire_body.len();
         let plan = ReqPlan {
-            read: ReadPlan::ToEof { extra: 0 },
+            // mostly read to the end; sometimes answer early (nothing / half of the body read)
+            read: match rng.below(5) {
+                0 => ReadPlan::None,
+                1 => ReadPlan::Upto(designated.len() / 2),
+                _ => ReadPlan::ToEof { extra: 0 },
+            },
             read_sizes: read_sizes(&mut rng, designated.len()),
             as_reader_calls: 1,
             finish: Finish::Respond { status: 200, body_len: *rng.pick(&[0usize, 10, 2000]), declared: true, threshold: None, max_piece: 100000 },
